@@ -527,7 +527,7 @@ class Ref:
         for n, v in entries:
             idx = None
             for i, a in enumerate(attrs):
-                if a[0].lower() == n.lower():
+                if a is not None and a[0].lower() == n.lower():
                     idx = i
             if v is self.default:
                 continue                      # keep the static text, or nothing
@@ -558,6 +558,8 @@ class Ref:
                 continue
             name = a[0]
             if name in i18n_attrs:
+                if not i18n_attrs[name] and a[1] == '':
+                    continue                   # nothing to translate (empty text, no explicit id)
                 a[1] = self.T(i18n_attrs[name] or a[1], None, a[1])
             elif name.lower() in implicit and a[2]:
                 raw = statics.get(name)
